@@ -31,10 +31,19 @@ def cfg : Cfg :=
     feMemoized := Gen.C03.feMemoized
     hasRollup := Gen.C03.hasRollup
     goneGuard := Gen.C03.goneGuard
-    childrenPopSelf := Gen.C03.childrenPopSelf }
+    childrenPopSelf := Gen.C03.childrenPopSelf
+    probeLenient := Gen.C03.runningProbe == "lenient"
+    asDictSkipCatch := Gen.C03.asDictSkipCatch
+    asDictSkipRule := Gen.C03.asDictSkipRule }
 
 /-- the public names of psutil.Process and the as_dict attribute names, as extracted -/
 def publicMethods : List String := Gen.C03.publicMethods
 def asDictNames : List String := Gen.C03.asDictNames
+
+/-- shape facts that the model hard-codes (pinned by the obligation `cfg_shapes_good` in Props/C03.lean) -/
+def runningProbe : String := Gen.C03.runningProbe
+def asDictLs : String := Gen.C03.asDictLs
+def oneshotShape : String := Gen.C03.oneshotShape
+def tryScopes : List (String × List String) := Gen.C03.tryScopes
 
 end Psutil.C03
